@@ -267,6 +267,12 @@ Fixpoint inst (deep : bool) (d : nat) (f : fld) (h : heap) (arg : option val) {s
         | Some (VRef l) => match lookup h l with Some (ODict _ es) => Some es | _ => None end
         | Some (VScalar _) => None
         end in
+      let keep : bool :=         (* a Config object is stored as it is (re-parented only) *)
+        match arg with
+        | Some (VRef l) => match lookup h l with Some (OCfg _ _ _) => true | _ => false end
+        | _ => false
+        end in
+      if keep then match arg with Some v => Some (h, v) | None => None end else
       match entries with
       | None => None
       | Some es =>
